@@ -1,6 +1,7 @@
 (* C20 — extension protocol: executable model (definitions only).
 
-   Anchors (as the code IS on the checked tree):
+   Anchors (as the code IS on the checked tree, after the fix: commits 025b717 6c29d69 941ab7d
+   a355167 e099dce):
      src/protocol/extensions.{h,cc}      ProtocolExtension::{send_metadata_piece, parse_handshake,
                                          parse_ut_metadata, read_start, read_done, id,
                                          set/unset_local_enabled, generate_ut_pex_message,
@@ -9,20 +10,32 @@
                                          write_prepare_extension, send_pex_message, send_ext_message,
                                          set_peer_exchange
      src/protocol/peer_connection_leech.cc read_message (EXTENSION_PROTOCOL), event_read loop,
-                                         fill_write_buffer, receive_keepalive (240 s read timeout)
+                                         fill_write_buffer, event_write, receive_keepalive (240 s)
      src/protocol/handshake.cc           write_extension_handshake
      src/download/download_main.cc       do_peer_exchange
      src/download/download_wrapper.cc    receive_tick (2-minute part)
      src/torrent/peer/connection_list.cc insert (push_back) / erase (swap with last)
+     src/torrent/system/poll_epoll.cc    Poll::process (per ready fd: read event, then write event)
 
-   Granularity: one [op] = one scripted action of a wire peer (or the 2-minute tick) followed by
-   running the library to quiescence, exactly what harness/c20.cc does. Writes are never blocked
-   (no send budget), so at quiescence nothing is pending and no connection is in the write set.
+   Granularity: EVENT level. A connection carries the kernel socket queue (complete messages the
+   peer sent and the library has not read), the protocol buffer (read, not yet parsed), the
+   complete extension message that waits for a pending write (m_read while parse_ut_metadata
+   returns false), the pending reply (m_pending), the message in flight (m_up buffer +
+   m_extension_message) and the poll read/write sets. [read_event] / [write_event] are
+   PeerConnection::event_read / event_write; [settle] repeats Poll::process rounds until nothing
+   moves. One [op] = one scripted action of a wire peer (or the 2-minute tick, or a change of
+   the send budget) followed by [settle], exactly what harness/c20.cc does.
+   The send budget is all or nothing: [SetBlocked i true] makes the library-side socket of
+   peer i refuse every byte (send() -> EAGAIN), false makes it unlimited again.
 
-   Harness preconditions (documented limits of the model): every peer index connects at most
-   once; [Close] of a connection that is not in the read set is not modelled (the library only
-   notices through a later failed write); integers in messages fit int64; a batch is < 512 bytes
-   and arrives in one segment. *)
+   [fixes]: three further repairs proposed to the integrator are modelled as switches;
+   [current_fixes] says which of them /repo has. Theorems about the code as it is use
+   [current_fixes]; the positive reads_resume theorem is proved for [all_fixes].
+
+   Domain of the model (result [SUnmodelled] outside it; the glue skips such cases): a read
+   event always takes the whole socket queue (protocol buffer + queue < 512 bytes); [Close] only
+   of a connection that is in the read set with nothing unread. Integers in messages fit int64;
+   every peer index connects at most once. *)
 From Coq Require Import NArith ZArith List Bool.
 From LTV.C20 Require Import ParamsGen.
 Import ListNotations.
@@ -43,10 +56,11 @@ Inductive meta_reply :=
 (* pieceEnd = (metadataSize + metadata_piece_size - 1) >> metadata_piece_shift *)
 Definition piece_end (sz : N) : N := (sz + piece_size - 1) / piece_size.
 
-(* length of the last piece AS THE CODE COMPUTES IT: metadata_size % metadata_piece_size *)
-Definition last_len_code (sz : N) : N := sz mod piece_size.
-(* the repaired computation proposed to the integrator: size - (pieceEnd-1)*piece_size *)
-Definition last_len_repaired (sz : N) : N := sz - (piece_end sz - 1) * piece_size.
+(* length of the last piece as the code computes it since 025b717:
+   metadataSize - (piece << metadata_piece_shift) for piece = pieceEnd - 1 *)
+Definition last_len_code (sz : N) : N := sz - (piece_end sz - 1) * piece_size.
+(* the computation before 025b717 (kept for the regression theorem): metadata_size % 16384 *)
+Definition last_len_old (sz : N) : N := sz mod piece_size.
 
 Definition send_metadata_piece_with (last_len : N -> N) (meta_dl : bool) (m : list N) (piece : N) : meta_reply :=
   let sz := N.of_nat (length m) in
@@ -57,7 +71,7 @@ Definition send_metadata_piece_with (last_len : N -> N) (meta_dl : bool) (m : li
     MData piece sz (slice m (piece * piece_size) len).
 
 Definition send_metadata_piece := send_metadata_piece_with last_len_code.
-Definition send_metadata_piece_repaired := send_metadata_piece_with last_len_repaired.
+Definition send_metadata_piece_old := send_metadata_piece_with last_len_old.
 
 (* number of decimal digits printed by %zu *)
 Fixpoint ndigits_fuel (f : nat) (n : N) : N :=
@@ -67,9 +81,10 @@ Fixpoint ndigits_fuel (f : nat) (n : N) : N :=
   end.
 Definition ndigits (n : N) : N := ndigits_fuel 25 n.
 
-(* build_bencode(sizeof(size_t) + 36, "d8:msg_typei2e5:piecei%zuee", piece): the text has
+(* build_bencode(sizeof(size_t) + EXTRA, "d8:msg_typei2e5:piecei%zuee", piece): the text has
    24 + digits characters; vsnprintf truncates to maxLength-1 characters + NUL and the code
-   only refuses length > maxLength, so a 44-character text is sent as 43 characters + a NUL. *)
+   only refuses length > maxLength, so a text of exactly maxLength characters would be sent
+   truncated (EXTRA was 36 before e099dce: 44 characters for piece >= 10^19; it is 40 now). *)
 Definition reject_text_len (piece : N) : N := 24 + ndigits piece.
 Definition reject_buf_len : N := 8 + Params.c20_reject_buf_extra.
 Inductive build_result := BuildOk | BuildTruncated | BuildInternalError.
@@ -78,14 +93,29 @@ Definition reject_build (piece : N) : build_result :=
   else if reject_buf_len =? reject_text_len piece then BuildTruncated
   else BuildOk.
 
+
 (* ------------------------------------------------------------------------------------------ *)
-(* Part 2: connections, id map, PEX, read suspension                                           *)
+(* Part 2: connections at event level, id map, PEX, read suspension                            *)
 
 Record hs := mkHs { hs_pex : option Z; hs_meta : option Z; hs_port : option Z; hs_msize : option Z }.
 
 Inductive msg :=
 | MHandshake (h : hs)                      (* extended id 0 with an extension handshake *)
-| MExt (extid : N) (msgtype piece : Z).    (* extended id [extid], { msg_type, piece } *)
+| MExt (extid : N) (msgtype piece : Z)     (* extended id [extid], { msg_type, piece } *)
+| MKeepalive.
+Definition wmsg := (msg * N)%type.         (* message and its size on the wire *)
+Definition bytes_of (l : list wmsg) : N := fold_right (fun m a => snd m + a) 0 l.
+
+Record fixes := mkFx {
+  fx_up_nothrow : bool;   (* up_extension: a read_done() that still cannot proceed is not an internal_error *)
+  fx_pex_false : bool;    (* send_pex_message: returns false when it wrote nothing *)
+  fx_drain : bool;        (* event_write: after up_extension processed the waiting message, parse what is buffered behind it *)
+  fx_port : bool          (* parse_handshake: a 'p' outside 1..65535 is ignored instead of truncated to 16 bits *)
+}.
+(* /repo has all four since 1b429d0 0a72c3c c72865a 6e820e7 *)
+Definition current_fixes := mkFx true true true true.
+Definition no_fixes := mkFx false false false false.
+Definition all_fixes := mkFx true true true true.
 
 Record mask := mkMask { k_do : bool; k_en : bool; k_dis : bool }.
 Definition mask0 := mkMask false false false.
@@ -93,22 +123,72 @@ Definition mask_is0 (k : mask) : bool := negb (k_do k || k_en k || k_dis k).
 Definition mask_num (k : mask) : N :=
   (if k_do k then 1 else 0) + (if k_en k then 2 else 0) + (if k_dis k then 4 else 0).
 
-Record conn := mkConn {
-  c_peer : N;                          (* peer index; address 127.0.0.(2+index) *)
-  c_id_pex : N; c_id_meta : N;         (* m_idMap *)
-  c_le_pex : bool; c_le_meta : bool;   (* local enabled *)
-  c_rs_pex : bool; c_rs_meta : bool;   (* remote supported *)
-  c_init_hs : bool; c_init_pex : bool;
-  c_mask : mask;                       (* m_send_pex_mask *)
-  c_in_read : bool;                    (* in the poll read set *)
-  c_ds_ext : bool;                     (* ProtocolRead state is READ_EXTENSION *)
-  c_listen : N;                        (* PeerInfo::listen_port *)
-  c_idle : N                           (* 2-minute ticks since the last read event *)
-}.
-
 Definition entry := (N * N)%type.      (* peer index, listen port *)
-
 Definition pexmsg := option (list entry * list entry).   (* None: empty DataBuffer *)
+
+Inductive out :=
+| OHs (peer : N) (pex_on : bool) (msize : N)       (* the library's extension handshake *)
+| OToggle (peer : N) (on : bool)                   (* d1:md6:ut_pexi<1|0>eee, sent with id 0 *)
+| OPex (peer : N) (id : N) (added dropped : list entry)
+| OMeta (peer : N) (id : N) (r : meta_reply)
+| OClosed (peer : N).
+
+(* ProtocolWrite state: IDLE, or MSG/WRITE_EXTENSION with the extension message in flight *)
+Inductive upstate := UIdle | UMsg (ext : option out).
+
+(* ProtocolExtension: id map, flags; PeerInfo::listen_port *)
+Record xstate := mkX {
+  x_id_pex : N;
+  x_id_meta : N;
+  x_le_pex : bool;
+  x_le_meta : bool;
+  x_rs_pex : bool;
+  x_rs_meta : bool;
+  x_init_hs : bool;
+  x_init_pex : bool;
+  x_listen : N
+}.
+Definition set_x_id_pex (r : xstate) (v : N) : xstate := mkX v (x_id_meta r) (x_le_pex r) (x_le_meta r) (x_rs_pex r) (x_rs_meta r) (x_init_hs r) (x_init_pex r) (x_listen r).
+Definition set_x_id_meta (r : xstate) (v : N) : xstate := mkX (x_id_pex r) v (x_le_pex r) (x_le_meta r) (x_rs_pex r) (x_rs_meta r) (x_init_hs r) (x_init_pex r) (x_listen r).
+Definition set_x_le_pex (r : xstate) (v : bool) : xstate := mkX (x_id_pex r) (x_id_meta r) v (x_le_meta r) (x_rs_pex r) (x_rs_meta r) (x_init_hs r) (x_init_pex r) (x_listen r).
+Definition set_x_le_meta (r : xstate) (v : bool) : xstate := mkX (x_id_pex r) (x_id_meta r) (x_le_pex r) v (x_rs_pex r) (x_rs_meta r) (x_init_hs r) (x_init_pex r) (x_listen r).
+Definition set_x_rs_pex (r : xstate) (v : bool) : xstate := mkX (x_id_pex r) (x_id_meta r) (x_le_pex r) (x_le_meta r) v (x_rs_meta r) (x_init_hs r) (x_init_pex r) (x_listen r).
+Definition set_x_rs_meta (r : xstate) (v : bool) : xstate := mkX (x_id_pex r) (x_id_meta r) (x_le_pex r) (x_le_meta r) (x_rs_pex r) v (x_init_hs r) (x_init_pex r) (x_listen r).
+Definition set_x_init_hs (r : xstate) (v : bool) : xstate := mkX (x_id_pex r) (x_id_meta r) (x_le_pex r) (x_le_meta r) (x_rs_pex r) (x_rs_meta r) v (x_init_pex r) (x_listen r).
+Definition set_x_init_pex (r : xstate) (v : bool) : xstate := mkX (x_id_pex r) (x_id_meta r) (x_le_pex r) (x_le_meta r) (x_rs_pex r) (x_rs_meta r) (x_init_hs r) v (x_listen r).
+Definition set_x_listen (r : xstate) (v : N) : xstate := mkX (x_id_pex r) (x_id_meta r) (x_le_pex r) (x_le_meta r) (x_rs_pex r) (x_rs_meta r) (x_init_hs r) (x_init_pex r) v.
+
+(* PeerConnectionBase: poll sets, read/write machinery *)
+Record iostate := mkIO {
+  i_mask : mask;
+  i_in_read : bool;
+  i_in_write : bool;
+  i_ds_ext : bool;
+  i_pend : option meta_reply;
+  i_blocked : option Z;
+  i_buf : list wmsg;
+  i_sock : list wmsg;
+  i_up : upstate;
+  i_kabuf : bool;
+  i_wblocked : bool;
+  i_idle : N
+}.
+Definition set_i_mask (r : iostate) (v : mask) : iostate := mkIO v (i_in_read r) (i_in_write r) (i_ds_ext r) (i_pend r) (i_blocked r) (i_buf r) (i_sock r) (i_up r) (i_kabuf r) (i_wblocked r) (i_idle r).
+Definition set_i_in_read (r : iostate) (v : bool) : iostate := mkIO (i_mask r) v (i_in_write r) (i_ds_ext r) (i_pend r) (i_blocked r) (i_buf r) (i_sock r) (i_up r) (i_kabuf r) (i_wblocked r) (i_idle r).
+Definition set_i_in_write (r : iostate) (v : bool) : iostate := mkIO (i_mask r) (i_in_read r) v (i_ds_ext r) (i_pend r) (i_blocked r) (i_buf r) (i_sock r) (i_up r) (i_kabuf r) (i_wblocked r) (i_idle r).
+Definition set_i_ds_ext (r : iostate) (v : bool) : iostate := mkIO (i_mask r) (i_in_read r) (i_in_write r) v (i_pend r) (i_blocked r) (i_buf r) (i_sock r) (i_up r) (i_kabuf r) (i_wblocked r) (i_idle r).
+Definition set_i_pend (r : iostate) (v : option meta_reply) : iostate := mkIO (i_mask r) (i_in_read r) (i_in_write r) (i_ds_ext r) v (i_blocked r) (i_buf r) (i_sock r) (i_up r) (i_kabuf r) (i_wblocked r) (i_idle r).
+Definition set_i_blocked (r : iostate) (v : option Z) : iostate := mkIO (i_mask r) (i_in_read r) (i_in_write r) (i_ds_ext r) (i_pend r) v (i_buf r) (i_sock r) (i_up r) (i_kabuf r) (i_wblocked r) (i_idle r).
+Definition set_i_buf (r : iostate) (v : list wmsg) : iostate := mkIO (i_mask r) (i_in_read r) (i_in_write r) (i_ds_ext r) (i_pend r) (i_blocked r) v (i_sock r) (i_up r) (i_kabuf r) (i_wblocked r) (i_idle r).
+Definition set_i_sock (r : iostate) (v : list wmsg) : iostate := mkIO (i_mask r) (i_in_read r) (i_in_write r) (i_ds_ext r) (i_pend r) (i_blocked r) (i_buf r) v (i_up r) (i_kabuf r) (i_wblocked r) (i_idle r).
+Definition set_i_up (r : iostate) (v : upstate) : iostate := mkIO (i_mask r) (i_in_read r) (i_in_write r) (i_ds_ext r) (i_pend r) (i_blocked r) (i_buf r) (i_sock r) v (i_kabuf r) (i_wblocked r) (i_idle r).
+Definition set_i_kabuf (r : iostate) (v : bool) : iostate := mkIO (i_mask r) (i_in_read r) (i_in_write r) (i_ds_ext r) (i_pend r) (i_blocked r) (i_buf r) (i_sock r) (i_up r) v (i_wblocked r) (i_idle r).
+Definition set_i_wblocked (r : iostate) (v : bool) : iostate := mkIO (i_mask r) (i_in_read r) (i_in_write r) (i_ds_ext r) (i_pend r) (i_blocked r) (i_buf r) (i_sock r) (i_up r) (i_kabuf r) v (i_idle r).
+Definition set_i_idle (r : iostate) (v : N) : iostate := mkIO (i_mask r) (i_in_read r) (i_in_write r) (i_ds_ext r) (i_pend r) (i_blocked r) (i_buf r) (i_sock r) (i_up r) (i_kabuf r) (i_wblocked r) v.
+
+Record conn := mkConn { c_peer : N; c_x : xstate; c_io : iostate }.
+Definition with_x (c : conn) (x : xstate) : conn := mkConn (c_peer c) x (c_io c).
+Definition with_io (c : conn) (i : iostate) : conn := mkConn (c_peer c) (c_x c) i.
 
 Record dstate := mkD {
   d_private : bool;
@@ -123,23 +203,22 @@ Record dstate := mkD {
   d_used : list N                      (* peer indices that ever connected *)
 }.
 
-Inductive out :=
-| OHs (peer : N) (pex_on : bool) (msize : N)       (* the library's extension handshake *)
-| OToggle (peer : N) (on : bool)                   (* d1:md6:ut_pexi<1|0>eee, sent with id 0 *)
-| OPex (peer : N) (id : N) (added dropped : list entry)
-| OMeta (peer : N) (id : N) (r : meta_reply)
-| OClosed (peer : N).
-
-Inductive op := Connect (i : N) | Recv (i : N) (ms : list msg) | Tick | Close (i : N).
+Inductive op :=
+| Connect (i : N)
+| Recv (i : N) (ms : list wmsg)        (* the peer sends these messages in one segment *)
+| Tick
+| Close (i : N)
+| SetBlocked (i : N) (b : bool).       (* Session::set_send_budget(peer, 0 / unlimited) *)
 
 Definition init (priv : bool) (m : list N) (minp : N) : dstate :=
   mkD priv m minp true 0 [] [] None None [].
 
 Definition msize (d : dstate) : N := N.of_nat (length (d_meta d)).
 
-Definition u8 (z : Z) : N := Z.to_N (z mod 256).
 Definition u16 (z : Z) : N := Z.to_N (z mod 65536).
 Definition u64 (z : Z) : N := Z.to_N (z mod 18446744073709551616).
+(* 941ab7d: uint8_t id = (advertised < 0 || advertised > 255) ? 0 : advertised *)
+Definition clamp_id (z : Z) : N := if (z <? 0)%Z || (255 <? z)%Z then 0 else Z.to_N z.
 
 (* ---- connection list helpers *)
 Fixpoint find_conn (i : N) (l : list conn) : option conn :=
@@ -168,94 +247,188 @@ Fixpoint erase_conn (i : N) (l : list conn) : list conn :=
 
 Definition dec_if (b : bool) (n : N) : N := if b then n - 1 else n.
 
-Definition set_le_pex (c : conn) (b : bool) : conn :=
-  mkConn (c_peer c) (c_id_pex c) (c_id_meta c) b (c_le_meta c) (c_rs_pex c) (c_rs_meta c)
-         (c_init_hs c) (c_init_pex c) (c_mask c) (c_in_read c) (c_ds_ext c) (c_listen c) (c_idle c).
-Definition set_mask (c : conn) (k : mask) : conn :=
-  mkConn (c_peer c) (c_id_pex c) (c_id_meta c) (c_le_pex c) (c_le_meta c) (c_rs_pex c) (c_rs_meta c)
-         (c_init_hs c) (c_init_pex c) k (c_in_read c) (c_ds_ext c) (c_listen c) (c_idle c).
-Definition set_idle (c : conn) (n : N) : conn :=
-  mkConn (c_peer c) (c_id_pex c) (c_id_meta c) (c_le_pex c) (c_le_meta c) (c_rs_pex c) (c_rs_meta c)
-         (c_init_hs c) (c_init_pex c) (c_mask c) (c_in_read c) (c_ds_ext c) (c_listen c) n.
-Definition set_blocked (c : conn) (ds_ext : bool) : conn :=
-  mkConn (c_peer c) (c_id_pex c) (c_id_meta c) (c_le_pex c) (c_le_meta c) (c_rs_pex c) (c_rs_meta c)
-         (c_init_hs c) (c_init_pex c) (c_mask c) false ds_ext (c_listen c) (c_idle c).
-Definition set_init_pex (c : conn) (b : bool) : conn :=
-  mkConn (c_peer c) (c_id_pex c) (c_id_meta c) (c_le_pex c) (c_le_meta c) (c_rs_pex c) (c_rs_meta c)
-         (c_init_hs c) b (c_mask c) (c_in_read c) (c_ds_ext c) (c_listen c) (c_idle c).
-
-(* ---- ProtocolExtension::parse_handshake; inr = communication_error (connection erased) *)
-Definition parse_handshake (ms : N) (c : conn) (sp : N) (h : hs) : (conn * N) + (conn * N) :=
-  (* t = UT_PEX *)
-  let '(idp, rsp, ipx) :=
-    match hs_pex h with
-    | None => (c_id_pex c, c_rs_pex c, c_init_pex c)
-    | Some z => let id := u8 z in
-                if id =? c_id_pex c then (c_id_pex c, true, c_init_pex c)
-                else (id, true, c_init_pex c || negb (id =? 0))
-    end in
-  (* t = UT_METADATA *)
-  let '(idm, rsm) :=
-    match hs_meta h with
-    | None => (c_id_meta c, c_rs_meta c)
-    | Some z => (u8 z, true)
-    end in
-  (* first handshake: disable local extensions the peer does not support *)
-  let drop_pex := c_init_hs c && negb rsp && c_le_pex c in
-  let lep := if c_init_hs c && negb rsp then false else c_le_pex c in
-  let lem := if c_init_hs c && negb rsm then false else c_le_meta c in
-  let sp' := dec_if drop_pex sp in
-  let lp := match hs_port h with
-            | None => c_listen c
-            | Some z => if 0 <? u16 z then u16 z else c_listen c
-            end in
-  let bad_size := match hs_msize h with
-                  | None => false
-                  | Some z => negb (ms =? 0) && negb (ms =? u64 z)
-                  end in
-  if bad_size then
-    inr (mkConn (c_peer c) idp idm lep lem rsp rsm (c_init_hs c) ipx (c_mask c) (c_in_read c) (c_ds_ext c) lp (c_idle c), sp')
-  else
-    inl (mkConn (c_peer c) idp idm lep lem rsp rsm false ipx (c_mask c) (c_in_read c) (c_ds_ext c) lp (c_idle c), sp').
-
-(* ---- one read event over the messages of a batch.
-   pend: the reply built by send_metadata_piece that waits for the write event. *)
-Inductive batch_result :=
-| BDone (c : conn) (sp : N) (pend : option meta_reply)
-| BClosed (c : conn) (sp : N).
-
 Definition empty_hs := mkHs None None None None.
 
-Fixpoint run_batch (meta : list N) (c : conn) (sp : N) (pend : option meta_reply) (ms : list msg) : batch_result :=
+(* ---- ProtocolExtension::parse_handshake. Result: new id map/flags, the pending reply (dropped
+   when its type's id becomes 0), size_pex, and whether a communication_error was thrown
+   (metadata_size mismatch: the connection is erased). *)
+Definition parse_handshake (fx : fixes) (ms : N) (x : xstate) (pend : option meta_reply) (sp : N) (h : hs)
+  : xstate * option meta_reply * N * bool :=
+  let '(idp, rsp, ipx) :=
+    match hs_pex h with
+    | None => (x_id_pex x, x_rs_pex x, x_init_pex x)
+    | Some z => let id := clamp_id z in
+                if id =? x_id_pex x then (x_id_pex x, true, x_init_pex x)
+                else (id, true, x_init_pex x || negb (id =? 0))
+    end in
+  let '(idm, rsm, pend') :=
+    match hs_meta h with
+    | None => (x_id_meta x, x_rs_meta x, pend)
+    | Some z => let id := clamp_id z in
+                (id, true, if negb (id =? x_id_meta x) && (id =? 0) then None else pend)
+    end in
+  let first := x_init_hs x in
+  let drop_pex := first && negb rsp && x_le_pex x in
+  let lep := if first && negb rsp then false else x_le_pex x in
+  let lem := if first && negb rsm then false else x_le_meta x in
+  let sp' := dec_if drop_pex sp in
+  let lp := match hs_port h with
+            | None => x_listen x
+            | Some z => if fx_port fx then (if (0 <? z)%Z && (z <=? 65535)%Z then Z.to_N z else x_listen x)
+                        else if 0 <? u16 z then u16 z else x_listen x
+            end in
+  let bad := match hs_msize h with
+             | None => false
+             | Some z => negb (ms =? 0) && negb (ms =? u64 z)
+             end in
+  (mkX idp idm lep lem rsp rsm (if bad then first else false) ipx lp, pend', sp', bad).
+
+(* "if (m_extensions->has_pending_message()) write_insert_poll_safe();" after a processed message *)
+Definition poke_write (i : iostate) : iostate :=
+  match i_pend i, i_up i with
+  | Some _, UIdle => set_i_in_write i true
+  | _, _ => i
+  end.
+
+(* parse_ut_metadata, msg_type 0, on a connection whose ut_metadata is locally enabled.
+   None: a reply is still pending, the request cannot be processed yet (read_done returns false
+   and, since 6c29d69, keeps the message). *)
+Definition try_request (meta : list N) (x : xstate) (i : iostate) (p : Z) : option iostate :=
+  if x_id_meta x =? 0 then Some i           (* 941ab7d: no id to reply with: ignored *)
+  else match i_pend i with
+       | Some _ => None
+       | None => Some (set_i_pend i (Some (send_metadata_piece false meta (u64 p))))
+       end.
+
+(* ---- "while (read_message());" over complete buffered messages. The bool says that a
+   communication_error closed the connection. A blocked request stops the loop, removes the
+   connection from the read set and leaves the rest in the protocol buffer. *)
+Fixpoint parse_msgs (fx : fixes) (meta : list N) (c : conn) (sp : N) (ms : list wmsg) : conn * N * bool :=
   match ms with
-  | [] => BDone c sp pend
-  | m :: rest =>
-    let do_hs h :=
-      match parse_handshake (N.of_nat (length meta)) c sp h with
-      | inl (c', sp') => run_batch meta c' sp' pend rest
-      | inr (c', sp') => BClosed c' sp'
-      end in
+  | [] => (with_io c (set_i_buf (c_io c) []), sp, false)
+  | (m, _) :: rest =>
+    let hsk h :=
+      let '(x', pend', sp', bad) := parse_handshake fx (N.of_nat (length meta)) (c_x c) (i_pend (c_io c)) sp h in
+      let c' := mkConn (c_peer c) x' (set_i_pend (c_io c) pend') in
+      if bad then (with_io c' (set_i_buf (c_io c') rest), sp', true)
+      else parse_msgs fx meta (with_io c' (poke_write (c_io c'))) sp' rest in
     match m with
-    | MHandshake h => do_hs h
+    | MKeepalive => parse_msgs fx meta c sp rest
+    | MHandshake h => hsk h
     | MExt e t p =>
-      if 3 <=? e then BClosed c sp                        (* read_start: communication_error *)
-      else if e =? 0 then do_hs empty_hs                   (* a handshake without any known key *)
-      else if e =? 1 then run_batch meta c sp pend rest    (* ut_pex without 'added' / skipped *)
-      else (* UT_METADATA *)
-        if negb (c_le_meta c) then run_batch meta c sp pend rest    (* SKIP_EXTENSION *)
-        else if (t =? 0)%Z then
-          match pend with
-          | Some _ =>
-            (* parse_ut_metadata returns false; read_done still deletes the message and
-               invalidates the read state; down_extension removes the connection from the
-               read set; nothing re-inserts it (up_extension sees is_invalid()). The rest of
-               the batch stays unparsed in the protocol buffer. *)
-            BDone (set_blocked c (match rest with [] => true | _ => false end)) sp pend
-          | None => run_batch meta c sp (Some (send_metadata_piece false meta (u64 p))) rest
-          end
-        else run_batch meta c sp pend rest                 (* msg_type 1/2: base class ignores *)
+      if 3 <=? e then (with_io c (set_i_buf (c_io c) rest), sp, true)      (* read_start: communication_error *)
+      else if e =? 0 then hsk empty_hs
+      else if e =? 1 then parse_msgs fx meta (with_io c (poke_write (c_io c))) sp rest
+      else if negb (x_le_meta (c_x c)) then parse_msgs fx meta (with_io c (poke_write (c_io c))) sp rest   (* SKIP_EXTENSION *)
+      else if (t =? 0)%Z then
+        match try_request meta (c_x c) (c_io c) p with
+        | Some i' => parse_msgs fx meta (with_io c (poke_write i')) sp rest
+        | None =>
+          (with_io c (set_i_buf (set_i_ds_ext (set_i_in_read (set_i_blocked (c_io c) (Some p)) false) true) rest), sp, false)
+        end
+      else parse_msgs fx meta (with_io c (poke_write (c_io c))) sp rest       (* msg_type 1/2: base class ignores *)
     end
   end.
+
+Inductive cres :=
+| COk (c : conn) (sp : N) (o : list out)
+| CClosed (c : conn) (sp : N) (o : list out)   (* the library erases the connection *)
+| CInternal                                     (* internal_error escapes to the client *)
+| CUnmodelled.
+
+(* ---- PeerConnection::event_read (socket readable) *)
+Definition read_event (fx : fixes) (meta : list N) (c : conn) (sp : N) : cres :=
+  let i0 := set_i_idle (c_io c) 0 in
+  let stage1 : option iostate :=
+    if i_ds_ext i0 then
+      match i_blocked i0 with
+      | Some p => match try_request meta (c_x c) i0 p with
+                  | Some i' => Some (set_i_ds_ext (poke_write (set_i_blocked i' None)) false)
+                  | None => None
+                  end
+      | None => Some (set_i_ds_ext (poke_write i0) false)
+      end
+    else Some i0 in
+  match stage1 with
+  | None => COk (with_io c (set_i_in_read i0 false)) sp []
+  | Some i1 =>
+    if 512 <=? bytes_of (i_buf i1) + bytes_of (i_sock i1) then CUnmodelled
+    else
+      let '(c', sp', closed) := parse_msgs fx meta (with_io c (set_i_sock i1 [])) sp (i_buf i1 ++ i_sock i1) in
+      if closed then CClosed c' sp' [] else COk c' sp' []
+  end.
+
+(* ---- PeerConnectionBase::send_pex_message: (connection, return value, message prepared) *)
+Definition send_pex (fx : fixes) (ini del : pexmsg) (c : conn) : conn * bool * option out :=
+  let i := c_io c in
+  let k := i_mask i in
+  let x := c_x c in
+  if negb (x_rs_pex x) then (with_io c (set_i_mask i mask0), false, None)
+  else if k_en k || k_dis k then
+    (with_io c (set_i_mask i (mkMask (k_do k) false false)), true, Some (OToggle (c_peer c) (k_en k)))
+  else if k_do k && negb (x_id_pex x =? 0) then
+    let m := if x_init_pex x then ini else del in
+    let c1 := mkConn (c_peer c) (set_x_init_pex x false) (set_i_mask i mask0) in
+    match m with
+    | None => (c1, false, None)
+    | Some (a, r) => (c1, true, Some (OPex (c_peer c) (x_id_pex x) a r))
+    end
+  else (with_io c (set_i_mask i mask0), negb (fx_pex_false fx), None).
+
+(* ---- the extension part of fill_write_buffer *)
+Definition fill (fx : fixes) (ini del : pexmsg) (c : conn) : conn * option out :=
+  let '(c1, ret, ext) := if mask_is0 (i_mask (c_io c)) then (c, false, None) else send_pex fx ini del c in
+  if ret then (c1, ext)
+  else match i_pend (c_io c1) with
+       | Some r => (with_io c1 (set_i_pend (c_io c1) None),
+                    Some (OMeta (c_peer c1) (x_id_meta (c_x c1)) r))   (* write_prepare_extension(id(UT_METADATA)) *)
+       | None => (c1, None)
+       end.
+
+(* ---- PeerConnection::event_write (socket writable) *)
+Fixpoint write_loop (fuel : nat) (fx : fixes) (meta : list N) (ini del : pexmsg) (c : conn) (sp : N) (acc : list out) : cres :=
+  match fuel with
+  | O => CUnmodelled
+  | S f =>
+    match i_up (c_io c) with
+    | UIdle =>
+      let '(c1, ext) := fill fx ini del c in
+      match ext, i_kabuf (c_io c1) with
+      | None, false => COk (with_io c1 (set_i_in_write (c_io c1) false)) sp acc     (* buffer empty: remove_write *)
+      | _, _ => write_loop f fx meta ini del (with_io c1 (set_i_kabuf (set_i_up (c_io c1) (UMsg ext)) false)) sp acc
+      end
+    | UMsg ext =>
+      if i_wblocked (c_io c) then COk c sp acc                                       (* send() -> EAGAIN *)
+      else
+        match ext with
+        | None => write_loop f fx meta ini del (with_io c (set_i_up (c_io c) UIdle)) sp acc
+        | Some e =>
+          let i := c_io c in
+          (* up_extension: the message is on the wire; a complete waiting message is processed now *)
+          let r : option iostate :=
+            match i_blocked i with
+            | Some p => match try_request meta (c_x c) i p with
+                        | Some i' => Some (set_i_in_read (set_i_blocked i' None) true)
+                        | None => if fx_up_nothrow fx then Some i else None
+                        end
+            | None => Some i
+            end in
+          match r with
+          | None => CInternal      (* "up_extension could not process complete extension message" *)
+          | Some i1 =>
+            let i2 := set_i_up i1 UIdle in
+            if fx_drain fx && i_ds_ext i2 && (match i_blocked i2 with None => true | Some _ => false end) then
+              let '(c', sp', closed) := parse_msgs fx meta (with_io c (set_i_ds_ext i2 false)) sp (i_buf i2) in
+              if closed then CClosed c' sp' (acc ++ [e])
+              else write_loop f fx meta ini del c' sp' (acc ++ [e])
+            else write_loop f fx meta ini del (with_io c i2) sp (acc ++ [e])
+          end
+        end
+    end
+  end.
+
+Definition write_event (fx : fixes) (meta : list N) (ini del : pexmsg) (c : conn) (sp : N) : cres :=
+  write_loop 200 fx meta ini del c sp [].
 
 (* ---- DownloadMain::do_peer_exchange *)
 Definition swap16 (p : N) : N := (p mod 256) * 256 + p / 256.
@@ -289,38 +462,40 @@ Definition gen_pex (a r : list entry) : pexmsg :=
   | _, _ => Some (a, r)
   end.
 
-(* the per-connection part of the loop: (toggle, size_pex) threaded through *)
 Inductive toggle := TNone | TEnable | TDisable.
+
+Definition cmask (c : conn) : mask := i_mask (c_io c).
+Definition set_cmask (c : conn) (k : mask) : conn := with_io c (set_i_mask (c_io c) k).
+Definition set_le_pex (c : conn) (b : bool) : conn := with_x c (set_x_le_pex (c_x c) b).
 
 Fixpoint pex_loop (tg : toggle) (sp : N) (l : list conn) : list conn * N :=
   match l with
   | [] => ([], sp)
   | c :: r =>
-    if negb (c_rs_pex c) then let '(r', sp') := pex_loop tg sp r in (c :: r', sp')
+    if negb (x_rs_pex (c_x c)) then let '(r', sp') := pex_loop tg sp r in (c :: r', sp')
     else
       match tg with
       | TEnable =>
-        (* set_peer_exchange(true); PEX_DO *)
-        let sp1 := if c_le_pex c then sp else sp + 1 in
-        let c1 := set_mask (set_le_pex c true) (mkMask true true false) in
+        let sp1 := if x_le_pex (c_x c) then sp else sp + 1 in
+        let c1 := set_cmask (set_le_pex c true) (mkMask true true false) in
         let tg' := if Params.c20_max_size_pex <=? sp1 then TNone else TEnable in
         let '(r', sp') := pex_loop tg' sp1 r in (c1 :: r', sp')
       | _ =>
-        if negb (c_le_pex c) then let '(r', sp') := pex_loop tg sp r in (c :: r', sp')
+        if negb (x_le_pex (c_x c)) then let '(r', sp') := pex_loop tg sp r in (c :: r', sp')
         else
           match tg with
           | TDisable =>
-            let c1 := set_mask (set_le_pex c false) (mkMask (k_do (c_mask c)) false true) in
+            let c1 := set_cmask (set_le_pex c false) (mkMask (k_do (cmask c)) false true) in
             let '(r', sp') := pex_loop tg (sp - 1) r in (c1 :: r', sp')
           | _ =>
-            let c1 := set_mask c (mkMask true (k_en (c_mask c)) (k_dis (c_mask c))) in
+            let c1 := set_cmask c (mkMask true (k_en (cmask c)) (k_dis (cmask c))) in
             let '(r', sp') := pex_loop tg sp r in (c1 :: r', sp')
           end
       end
   end.
 
 Definition current_entries (l : list conn) : list entry :=
-  map (fun c => (c_peer c, c_listen c)) (filter (fun c => negb (c_listen c =? 0)) l).
+  map (fun c => (c_peer c, x_listen (c_x c))) (filter (fun c => negb (x_listen (c_x c) =? 0)) l).
 
 Inductive dpe_result := DpeOk (d : dstate) | DpeInternalError.
 
@@ -344,9 +519,10 @@ Definition do_peer_exchange (d : dstate) : dpe_result :=
         let added' := firstn (length added - N.to_nat (ncur - cap)) added in
         (added', sort_entries (set_diff (d_list d) removed ++ added'))
       else (added, current) in
+    (* a355167: if (!added.empty() || !removed.empty()) regenerate both buffers *)
     let '(ini, del) :=
-      match added', list' with
-      | [], [] => (d_initial d, None)     (* the stale-initial path *)
+      match added', removed with
+      | [], [] => (d_initial d, None)
       | _, _ => (gen_pex list' [], gen_pex added' removed)
       end in
     DpeOk (mkD (d_private d) (d_meta d) (d_minp d) act sp' conns' list' ini del (d_used d)).
@@ -356,14 +532,22 @@ Fixpoint disable_all (sp : N) (l : list conn) : list conn * N :=
   match l with
   | [] => ([], sp)
   | c :: r =>
-    if c_rs_pex c then
-      let c1 := set_mask (set_le_pex c false) (mkMask (k_do (c_mask c)) false true) in
-      let '(r', sp') := disable_all (dec_if (c_le_pex c) sp) r in (c1 :: r', sp')
+    if x_rs_pex (c_x c) then
+      let c1 := set_cmask (set_le_pex c false) (mkMask (k_do (cmask c)) false true) in
+      let '(r', sp') := disable_all (dec_if (x_le_pex (c_x c)) sp) r in (c1 :: r', sp')
     else let '(r', sp') := disable_all sp r in (c :: r', sp')
   end.
 
-(* ---- keep-alive loop with the 240 s read timeout: idle counts 2-minute ticks *)
+(* ---- keep-alive loop with the 240 s read timeout: idle counts 2-minute ticks.
+   receive_keepalive writes a keep-alive into the buffer only when ProtocolWrite is IDLE. *)
 Definition timeout_ticks : N := Params.c20_read_timeout_s / 120.   (* 2 *)
+
+Definition keepalive_conn (c : conn) : conn :=
+  let i := set_i_idle (c_io c) (i_idle (c_io c) + 1) in
+  with_io c (match i_up i with
+             | UIdle => set_i_kabuf (set_i_in_write i true) true
+             | UMsg _ => i
+             end).
 
 Fixpoint ka_loop (fuel : nat) (sp : N) (l : list conn) : list conn * N * list out :=
   match fuel with
@@ -372,74 +556,90 @@ Fixpoint ka_loop (fuel : nat) (sp : N) (l : list conn) : list conn * N * list ou
     match l with
     | [] => ([], sp, [])
     | c :: r =>
-      if timeout_ticks <? c_idle c + 1 then
+      if timeout_ticks <? i_idle (c_io c) + 1 then
         let l' := match r with [] => [] | _ => last r c :: removelast r end in
-        let '(l'', sp', o) := ka_loop f (dec_if (c_le_pex c) sp) l' in
+        let '(l'', sp', o) := ka_loop f (dec_if (x_le_pex (c_x c)) sp) l' in
         (l'', sp', OClosed (c_peer c) :: o)
       else
         let '(r', sp', o) := ka_loop f sp r in
-        (set_idle c (c_idle c + 1) :: r', sp', o)
+        (keepalive_conn c :: r', sp', o)
     end
   end.
 
-(* ---- write events after the tick: PeerConnectionBase::send_pex_message until the mask is 0 *)
-Fixpoint drain_mask (fuel : nat) (ini del : pexmsg) (c : conn) : conn * list out :=
-  match fuel with
-  | O => (c, [])
-  | S f =>
-    let k := c_mask c in
-    if mask_is0 k then (c, [])
-    else if negb (c_rs_pex c) then (set_mask c mask0, [])
-    else if k_en k || k_dis k then
-      let '(c', o) := drain_mask f ini del (set_mask c (mkMask (k_do k) false false)) in
-      (c', OToggle (c_peer c) (k_en k) :: o)
-    else if k_do k && negb (c_id_pex c =? 0) then
-      let m := if c_init_pex c then ini else del in
-      let c1 := set_mask (set_init_pex c false) mask0 in
-      match m with
-      | None => (c1, [])
-      | Some (a, r) => (c1, [OPex (c_peer c) (c_id_pex c) a r])
-      end
-    else (set_mask c mask0, [])
-  end.
-
-Fixpoint drain_all (ini del : pexmsg) (l : list conn) : list conn * list out :=
-  match l with
-  | [] => ([], [])
-  | c :: r =>
-    let '(c', o) := drain_mask 3 ini del c in
-    let '(r', o') := drain_all ini del r in
-    (c' :: r', o ++ o')
-  end.
-
-Definition read_keepalives (l : list conn) : list conn :=
-  map (fun c => if c_in_read c then set_idle c 0 else c) l.
-
-Inductive step_result := SOk (d : dstate) (o : list out) | SInternalError.
+Inductive step_result := SOk (d : dstate) (o : list out) | SInternalError | SUnmodelled.
 
 Definition set_conns (d : dstate) (l : list conn) (sp : N) : dstate :=
   mkD (d_private d) (d_meta d) (d_minp d) (d_pex_active d) sp l (d_list d) (d_initial d) (d_delta d) (d_used d).
 
-Definition tick (d0 : dstate) : step_result :=
-  let d := set_conns d0 (read_keepalives (d_conns d0)) (d_size_pex d0) in
-  let r :=
-    if negb (d_private d) then do_peer_exchange d
-    else if d_pex_active d then
-      let '(l, sp) := disable_all (d_size_pex d) (d_conns d) in
-      DpeOk (mkD (d_private d) (d_meta d) (d_minp d) false sp l (d_list d) (d_initial d) (d_delta d) (d_used d))
-    else DpeOk d in
-  match r with
-  | DpeInternalError => SInternalError
-  | DpeOk d1 =>
-    let '(l2, sp2, o2) := ka_loop (length (d_conns d1)) (d_size_pex d1) (d_conns d1) in
-    let '(l3, o3) := drain_all (d_initial d1) (d_delta d1) l2 in
-    SOk (set_conns d1 l3 sp2) (o2 ++ o3)
+Definition is_nil {A} (l : list A) : bool := match l with [] => true | _ => false end.
+Definition is_umsg (u : upstate) : bool := match u with UMsg _ => true | UIdle => false end.
+
+(* ---- Poll::process rounds for one connection until nothing moves *)
+Fixpoint settle (fuel : nat) (fx : fixes) (d : dstate) (i : N) (acc : list out) : step_result :=
+  match fuel with
+  | O => SUnmodelled
+  | S f =>
+    match find_conn i (d_conns d) with
+    | None => SOk d acc
+    | Some c =>
+      let io := c_io c in
+      let after (r : cres) : step_result :=
+        match r with
+        | COk c' sp o => settle f fx (set_conns d (replace_conn c' (d_conns d)) sp) i (acc ++ o)
+        | CClosed c' sp o =>
+          SOk (set_conns d (erase_conn i (d_conns d)) (dec_if (x_le_pex (c_x c')) sp)) (acc ++ o ++ [OClosed i])
+        | CInternal => SInternalError
+        | CUnmodelled => SUnmodelled
+        end in
+      if i_in_read io && negb (is_nil (i_sock io)) then after (read_event fx (d_meta d) c (d_size_pex d))
+      else if i_in_write io && negb (is_umsg (i_up io) && i_wblocked io) then
+        after (write_event fx (d_meta d) (d_initial d) (d_delta d) c (d_size_pex d))
+      else SOk d acc
+    end
   end.
 
-Definition default_conn (i : N) (le_pex : bool) : conn :=
-  mkConn i 0 0 le_pex true false false true false mask0 true false 0 0.
+Definition settle_fuel : nat := 64.
 
-Definition step (d : dstate) (o : op) : step_result :=
+Fixpoint settle_all (fx : fixes) (d : dstate) (ids : list N) (acc : list out) : step_result :=
+  match ids with
+  | [] => SOk d acc
+  | i :: r =>
+    match settle settle_fuel fx d i [] with
+    | SOk d' o => settle_all fx d' r (acc ++ o)
+    | e => e
+    end
+  end.
+
+Definition push_sock (c : conn) (ms : list wmsg) : conn :=
+  with_io c (set_i_sock (c_io c) (i_sock (c_io c) ++ ms)).
+
+Definition tick (fx : fixes) (d0 : dstate) : step_result :=
+  (* every scripted peer sends a keep-alive first *)
+  let ids := map c_peer (d_conns d0) in
+  let d00 := set_conns d0 (map (fun c => push_sock c [(MKeepalive, 4)]) (d_conns d0)) (d_size_pex d0) in
+  match settle_all fx d00 ids [] with
+  | SOk d o1 =>
+    let r :=
+      if negb (d_private d) then do_peer_exchange d
+      else if d_pex_active d then
+        let '(l, sp) := disable_all (d_size_pex d) (d_conns d) in
+        DpeOk (mkD (d_private d) (d_meta d) (d_minp d) false sp l (d_list d) (d_initial d) (d_delta d) (d_used d))
+      else DpeOk d in
+    match r with
+    | DpeInternalError => SInternalError
+    | DpeOk d1 =>
+      let '(l2, sp2, o2) := ka_loop (length (d_conns d1)) (d_size_pex d1) (d_conns d1) in
+      let d2 := set_conns d1 l2 sp2 in
+      settle_all fx d2 (map c_peer l2) (o1 ++ o2)
+    end
+  | e => e
+  end.
+
+Definition default_x (le_pex : bool) : xstate := mkX 0 0 le_pex true false false true false 0.
+Definition default_io : iostate := mkIO mask0 true false false None None [] [] UIdle false false 0.
+Definition default_conn (i : N) (le_pex : bool) : conn := mkConn i (default_x le_pex) default_io.
+
+Definition step (fx : fixes) (d : dstate) (o : op) : step_result :=
   match o with
   | Connect i =>
     if existsb (N.eqb i) (d_used d) then SOk d []
@@ -453,70 +653,67 @@ Definition step (d : dstate) (o : op) : step_result :=
   | Recv i ms =>
     match find_conn i (d_conns d) with
     | None => SOk d []
-    | Some c =>
-      if negb (c_in_read c) then SOk d []       (* bytes stay in the socket *)
-      else
-        match run_batch (d_meta d) (set_idle c 0) (d_size_pex d) None ms with
-        | BClosed c' sp => SOk (set_conns d (erase_conn i (d_conns d)) (dec_if (c_le_pex c') sp)) [OClosed i]
-        | BDone c' sp pend =>
-          SOk (set_conns d (replace_conn c' (d_conns d)) sp)
-              (match pend with
-               | None => []
-               | Some r => [OMeta i (c_id_meta c') r]    (* write_prepare_extension(id(UT_METADATA)) *)
-               end)
-        end
+    | Some c => settle settle_fuel fx (set_conns d (replace_conn (push_sock c ms) (d_conns d)) (d_size_pex d)) i []
     end
-  | Tick => tick d
+  | Tick => tick fx d
   | Close i =>
     match find_conn i (d_conns d) with
     | None => SOk d []
     | Some c =>
-      if negb (c_in_read c) then SOk d []       (* not modelled, see header *)
-      else SOk (set_conns d (erase_conn i (d_conns d)) (dec_if (c_le_pex c) (d_size_pex d))) []
+      let io := c_io c in
+      if i_in_read io && is_nil (i_sock io) && is_nil (i_buf io) && (match i_blocked io with None => true | _ => false end)
+      then SOk (set_conns d (erase_conn i (d_conns d)) (dec_if (x_le_pex (c_x c)) (d_size_pex d))) []
+      else SUnmodelled
+    end
+  | SetBlocked i b =>
+    match find_conn i (d_conns d) with
+    | None => SOk d []
+    | Some c => settle settle_fuel fx (set_conns d (replace_conn (with_io c (set_i_wblocked (c_io c) b)) (d_conns d)) (d_size_pex d)) i []
     end
   end.
 
-(* run: outputs per op; an internal_error ends the run *)
-Fixpoint run (d : dstate) (ops : list op) : list (option (dstate * list out)) :=
+(* all outputs of a run, flattened; an internal_error / unmodelled situation ends the run *)
+Fixpoint outs_of (fx : fixes) (d : dstate) (ops : list op) : list out :=
   match ops with
   | [] => []
   | o :: r =>
-    match step d o with
-    | SInternalError => [None]
-    | SOk d' outs => Some (d', outs) :: run d' r
+    match step fx d o with
+    | SOk d' outs => outs ++ outs_of fx d' r
+    | _ => []
     end
   end.
 
-(* all outputs of a run, flattened *)
-Fixpoint outs_of (d : dstate) (ops : list op) : list out :=
-  match ops with
-  | [] => []
-  | o :: r =>
-    match step d o with
-    | SInternalError => []
-    | SOk d' outs => outs ++ outs_of d' r
-    end
-  end.
-
-Fixpoint final_state (d : dstate) (ops : list op) : dstate :=
+Fixpoint final_state (fx : fixes) (d : dstate) (ops : list op) : dstate :=
   match ops with
   | [] => d
   | o :: r =>
-    match step d o with
-    | SInternalError => d
-    | SOk d' _ => final_state d' r
+    match step fx d o with
+    | SOk d' _ => final_state fx d' r
+    | _ => d
+    end
+  end.
+
+(* did the run end in an internal_error? *)
+Fixpoint run_crashes (fx : fixes) (d : dstate) (ops : list op) : bool :=
+  match ops with
+  | [] => false
+  | o :: r =>
+    match step fx d o with
+    | SOk d' _ => run_crashes fx d' r
+    | SInternalError => true
+    | SUnmodelled => false
     end
   end.
 
 (* the harness starts every case with one tick (phase normalisation) *)
-Definition start (priv : bool) (m : list N) (minp : N) : dstate :=
-  match tick (init priv m minp) with
+Definition start (fx : fixes) (priv : bool) (m : list N) (minp : N) : dstate :=
+  match tick fx (init priv m minp) with
   | SOk d _ => d
-  | SInternalError => init priv m minp
+  | _ => init priv m minp
   end.
 
 Definition params_ok : bool :=
   (Params.c20_metadata_piece_shift =? 14) && (Params.c20_max_pex_list =? 200) &&
   (Params.c20_max_size_pex =? 8) && (Params.c20_read_timeout_s =? 240) &&
-  (Params.c20_reject_buf_extra =? 36) && (Params.c20_pex_tick_every =? 4) &&
+  (Params.c20_reject_buf_extra =? 40) && (Params.c20_pex_tick_every =? 4) &&
   (Params.c20_ext_length_limit =? 32768).
